@@ -229,3 +229,18 @@ pub fn same_raw<T: Col>(x: &T, y: &[W; 3]) -> bool {
 pub fn addr<T>(p: *const T) -> usize {
     p as usize
 }
+
+/// Transparent colours: `Alpha<Hsv<Srgb, W>, W>` and `Alpha<Hwb<Srgb, W>, W>` (`ArrayCast::Array == [W; 4]`).
+pub type Aa = palette::Alpha<A, W>;
+pub type Ba = palette::Alpha<B, W>;
+
+/// An arbitrary transparent colour: four unconstrained symbolic components (colour fields, then alpha).
+pub fn any_alpha<T: Col>() -> palette::Alpha<T, W> {
+    let color = any_col::<T>();
+    palette::Alpha { color, alpha: kani::any() }
+}
+
+/// Component-wise equality of transparent colours.
+pub fn same_alpha<T: Col>(x: &palette::Alpha<T, W>, y: &palette::Alpha<T, W>) -> bool {
+    same(&x.color, &y.color) && x.alpha.0 == y.alpha.0
+}
